@@ -329,6 +329,15 @@ class ExcAnalysis:
             if ch is not None:
                 r = self.ix.resolve_dotted(mod, fn)
                 out = self._from_lookup(r)
+            if not out and attr_chain(fn.value):
+                # a module-level library object (struct.Struct, compiled regex): not a repository receiver
+                try:
+                    from .loader import StructVal, RegexVal
+                    v = self.ix.fold(mod, fn.value)
+                    if isinstance(v, (StructVal, RegexVal)):
+                        return []
+                except Exception:
+                    pass
             if not out:
                 recv = fn.value
                 if isinstance(recv, ast.Call) and attr_chain(recv.func) == 'super' and cls is not None:
